@@ -19,9 +19,10 @@ from skchange.utils.validation.data import as_2d_array  # noqa: E402
 class TableCost(BaseCost):
     """cost(s, e) = table[s][e] (one output column)"""
 
-    def __init__(self, param=None, table=None, msize=1):
+    def __init__(self, param=None, table=None, msize=1, int_out=False):
         self.table = table
         self.msize = msize
+        self.int_out = int_out  # a user cost may return an integer-typed array (counts): results must not depend on that
         super().__init__(param)
 
     @property
@@ -30,6 +31,8 @@ class TableCost(BaseCost):
 
     def _fit(self, X, y=None):
         self._T = np.asarray(self.table, dtype=float)
+        if self.int_out and np.all(self._T == np.round(self._T)):
+            self._T = self._T.astype(np.int64)
         return self
 
     def _evaluate_optim_param(self, starts, ends):
@@ -59,6 +62,8 @@ class TableSaving(BaseSaving):
             for j, v in enumerate(row):
                 if v is not None:
                     A[i, j] = v
+        if (n1 + p) % 3 == 0 and np.all(A == np.round(A)):  # integer-typed output for a third of the (integral) tables
+            A = A.astype(np.int64)
         self._T = A
         return self
 
@@ -90,7 +95,8 @@ class HashChangeScore(BaseChangeScore):
         return self
 
     def _evaluate(self, cuts):
-        return np.array([[float(hscore(self.seed, self.R, c, self.neg))] for c in cuts]).reshape(-1, 1)
+        # every third scorer returns an integer-typed array, as a user-defined count-based score might
+        return np.array([[hscore(self.seed, self.R, c, self.neg)] for c in cuts], dtype=np.int64 if self.seed % 3 == 0 else float).reshape(-1, 1)
 
 
 class HashLocalAnomalyScore(BaseLocalAnomalyScore):
@@ -109,7 +115,8 @@ class HashLocalAnomalyScore(BaseLocalAnomalyScore):
         return self
 
     def _evaluate(self, cuts):
-        return np.array([[float(hscore(self.seed, self.R, c, self.neg))] for c in cuts]).reshape(-1, 1)
+        # every third scorer returns an integer-typed array, as a user-defined count-based score might
+        return np.array([[hscore(self.seed, self.R, c, self.neg)] for c in cuts], dtype=np.int64 if self.seed % 3 == 0 else float).reshape(-1, 1)
 
 
 class MultisetCost(BaseCost):
